@@ -169,8 +169,10 @@ def make_traced(cls):
             return out
 
         # -- overridden steps
-        def population_initialization(self):
-            pop = super().population_initialization()
+        # every override accepts and forwards extra positional / keyword arguments: a signature-extending refactor of graphiq must
+        # neither raise inside the tracer nor be reported as the implementation raising
+        def population_initialization(self, *args, **kwargs):
+            pop = super().population_initialization(*args, **kwargs)
             self.tr.append({"ev": "init", "pop": self._snap_pop(pop), "hof": self._snap_hof(),
                             "probs": [float(v) for v in self.trans_probs.values()],
                             "keys": [k.__name__ for k in self.trans_probs.keys()]})
@@ -195,9 +197,9 @@ def make_traced(cls):
             ev["hof"] = self._snap_hof(reeval=True)
             self.tr.append(ev)
 
-        def adapt_probabilities(self):
+        def adapt_probabilities(self, *args, **kwargs):
             before = [float(v) for v in self.trans_probs.values()]
-            super().adapt_probabilities()
+            super().adapt_probabilities(*args, **kwargs)
             self.tr.append({"ev": "adapt", "gen": self._gen, "before": before,
                             "after": [float(v) for v in self.trans_probs.values()],
                             "keys": [k.__name__ for k in self.trans_probs.keys()]})
@@ -234,25 +236,28 @@ def make_traced(cls):
                 self._moves.append({"t": "remove_op", "c": [str(x) for x in cands]})
             return super().remove_op(circuit, node, *args, **kwargs)
 
-        def add_emitter_cnot(self, circuit):
+        def add_emitter_cnot(self, circuit, *args, **kwargs):
             pairs = type(self)._select_possible_cnot_position(circuit)
             self._moves.append({"t": "add_emitter_cnot", "c": [edge_pair_str(p) for p in pairs]})
-            return super().add_emitter_cnot(circuit)
+            return super().add_emitter_cnot(circuit, *args, **kwargs)
 
-        def add_measurement_cnot_and_reset(self, circuit):
+        def add_measurement_cnot_and_reset(self, circuit, *args, **kwargs):
             pairs = type(self)._select_possible_measurement_position(circuit)
             self._moves.append({"t": "add_measurement_cnot_and_reset", "c": [edge_pair_str(p) for p in pairs]})
-            return super().add_measurement_cnot_and_reset(circuit)
+            return super().add_measurement_cnot_and_reset(circuit, *args, **kwargs)
 
-        def replace_photon_one_qubit_op(self, circuit):
+        def replace_photon_one_qubit_op(self, circuit, *args, **kwargs):
             cands = circuit.get_node_by_labels(["OneQubitGateWrapper", "Photonic"])
             self._moves.append({"t": "replace_photon_one_qubit_op", "c": [str(x) for x in cands]})
-            return super().replace_photon_one_qubit_op(circuit)
+            return super().replace_photon_one_qubit_op(circuit, *args, **kwargs)
 
-        def save_circuits(self, population, hof, iteration=-1, **kwargs):
+        def save_circuits(self, population, hof, iteration=-1, *args, **kwargs):
             # last per-generation call before the optional selection: used to advance the generation counter when
             # selection is off (tournament_selection is then never called)
-            super().save_circuits(population=population, hof=hof, iteration=iteration, **kwargs)
+            if args:
+                super().save_circuits(population, hof, iteration, *args, **kwargs)
+            else:
+                super().save_circuits(population=population, hof=hof, iteration=iteration, **kwargs)
             self.tr.append({"ev": "save", "gen": self._gen})
             if not self.setting.selection_active:
                 self._gen += 1
@@ -507,7 +512,10 @@ def worker_main():
         except Exception as e:  # noqa: BLE001
             import traceback
 
-            res = {"job": job, "infra_error": f"{type(e).__name__}: {e}", "tb": traceback.format_exc()[-1500:]}
+            # "impl_error": the exception was raised by $REPO code (result extraction after solve(), node_order walk), not by the harness:
+            # the consumer can report it as the implementation raising instead of an infrastructure failure
+            res = {"job": job, "infra_error": f"{type(e).__name__}: {e}", "tb": traceback.format_exc()[-1500:],
+                   "impl_error": common.err_class(e) if common.raised_in_repo(e) else None}
         sys.stdout.write(json.dumps(res) + "\n")
         sys.stdout.flush()
 
